@@ -638,6 +638,7 @@ Section Strict.
 Variable strict : bool.    (* true: `input._descendants.remove(self)` ; false: `.discard(self)` *)
 Variable guard : bool.     (* true: `if self._synthdef._children[input._synth_index] is input:` before
                               `input._optimize_graph()` in _perform_dead_code_elimination *)
+Variable subguard : bool.  (* true: `if a is b: return None` at the start of _optimize_sub *)
 
 (* Python list indexing self._children[i] (negative indices count from the end; None = IndexError) *)
 Definition child_at (s : st) (i : Z) : option (option nat) :=
@@ -684,6 +685,7 @@ Fixpoint dce_loop (rec : st -> nat -> res st) (u : nat) (s0 : st) (l : list inp)
 (* BinaryOpUGen._optimize_sub up to (and including) _replace_ugen *)
 Definition sub_rewrite (s : st) (U : unit) : res (option (st * nat)) :=
   let a := nth_in U 0 in let b := nth_in U 1 in
+  if subguard && inp_eqb a b then Ok None else
   do tb <- sole s b KUn "neg";
   match tb with
   | Some UB =>
@@ -853,15 +855,15 @@ Definition emit (s : st) (consts : list Q) : graph :=
        consts (controls s).
 
 (* SynthDef._build: returns the graph and the desc_inv test flag *)
-Definition compile_flag (strict guard : bool) (p : prog) : res (graph * bool) :=
+Definition compile_flag (strict guard subguard : bool) (p : prog) : res (graph * bool) :=
   do s1 <- build_graph p;
-  do2 s2, ok <- optimize strict guard s1;
+  do2 s2, ok <- optimize strict guard subguard s1;
   let consts := collect_constants s2 in
   if negb (check_inputs s2) then Err EValue else
   do s3 <- topological_sort s2;
   Ok (emit s3 consts, ok).
-Definition compile (strict guard : bool) (p : prog) : res graph :=
-  do2 g, unused <- compile_flag strict guard p; Ok g.
+Definition compile (strict guard subguard : bool) (p : prog) : res graph :=
+  do2 g, unused <- compile_flag strict guard subguard p; Ok g.
 
 End WithTables.
 
